@@ -505,9 +505,9 @@ fn check(c: &Case, obs: &mut Obs) -> Verdict {
 
 fn piece() -> BoxedStrategy<Piece> {
     prop_oneof![
-        4 => (0u8..16).prop_map(Piece::Func),
-        2 => (0u8..16).prop_map(Piece::Var),
-        3 => (0u8..16).prop_map(Piece::Call),
+        4 => (0u8..MIN_NAMES.len() as u8).prop_map(Piece::Func),
+        2 => (0u8..MIN_NAMES.len() as u8).prop_map(Piece::Var),
+        3 => (0u8..MIN_NAMES.len() as u8).prop_map(Piece::Call),
         2 => (0u8..5).prop_map(Piece::Str),
         2 => (0u8..6).prop_map(Piece::Pad),
         1 => Just(Piece::Close),
